@@ -1,6 +1,8 @@
 """C13 — merging and tabulating results."""
 from __future__ import annotations
 
+import ast
+
 from typing import List, Optional
 
 from .. import terms as tm
@@ -48,7 +50,7 @@ MANIFEST = dict(
               "the event log",
 )
 FLOORS = {"C13.1": 1, "C13.2": 3, "C13.3": 2, "C13.4": 6, "C13.5": 1,
-          "C13.6": 8}
+          "C13.6": 8, "C13.7": 3}
 
 MR = "evo.core.result.merge_results"
 RES = tm.param("results")
@@ -317,6 +319,38 @@ def check(ctx):
            f"info is modified at {info_w[0].where}", key="C13.5:info")
 
     _tables(ctx, prog)
+    _res_parser(ctx, prog)
+
+
+def _res_parser(ctx, prog):
+    """C13.7: 'for every input result file ... in input order': the list the
+    user typed must reach run() as typed — a parse-time transformation of
+    the positional file list (custom action / converting type that sorts,
+    de-duplicates or filters) changes which result is 'the first' and the
+    weights of the mean."""
+    from ..lib import parse_time_transform, parser_arguments
+    args_ = [(m, n, o, k) for m, n, o, k in parser_arguments(prog)
+             if m == "evo.main_res_parser"]
+    files = [(m, n, o, k) for m, n, o, k in args_ if "result_files" in o]
+    ctx.require(len(files) == 1, "evo_res: positional `result_files` "
+                "argument not found")
+    m, n, o, k = files[0]
+    why = parse_time_transform(k)
+    site = f"{m}:{n.lineno}"
+    ctx.ob("C13.7", site, why is None,
+           "evo_res: the given result files reach run() as typed (order and "
+           "multiplicity)" if why is None else
+           f"evo_res: the file list is transformed while parsing ({why}): "
+           f"merge / table no longer see the files in the order and "
+           f"multiplicity the user gave", key="C13.7:result_files")
+    for name in ("--merge", "--use_filenames"):
+        hit = [(kk, nn) for _, nn, oo, kk in args_ if name in oo]
+        ok = len(hit) == 1 and isinstance(hit[0][0].get("action"),
+                                          ast.Constant) and \
+            hit[0][0]["action"].value == "store_true"
+        ctx.ob("C13.7", site, ok,
+               f"evo_res: {name} is a plain store_true flag",
+               key=f"C13.7:{name}")
 
 
 def _tables(ctx, prog):
